@@ -8,9 +8,12 @@
 (* (a sol line exists iff the code's factorisation returned Ok).           *)
 (* For each line the Level-B model (LU.tla, exact rationals) is run on the *)
 (* scenario's input and the Level-A clauses of LUContract.tla are          *)
-(* evaluated ON THE VALUES THE CODE RETURNED: failures are VIOL lines (the *)
-(* run continues); Level-B mismatches that keep the contract (pivot        *)
-(* indices, factor entries, class in the either-allowed case) are DRIFT.   *)
+(* evaluated ON THE VALUES THE CODE RETURNED (floats are logged exactly as *)
+(* odd mantissa and binary exponent, see ME in LUContract.tla; the pivot   *)
+(* rows it reported drive the guided elimination of the pivot_max clause): *)
+(* failures are VIOL lines (the run continues); Level-B mismatches that    *)
+(* keep the contract (pivot indices among equally large candidates, factor *)
+(* entries, class in the either-allowed case) are DRIFT.                   *)
 (* (IF .. THEN TRUE ELSE PrintT is used instead of \/ because TLC treats a *)
 (* disjunction inside an action as a choice and evaluates both sides.)     *)
 (***************************************************************************)
@@ -25,13 +28,17 @@ VARIABLES l,      \* next line to match
           pc,     \* "start" | "sol_full" | "dec_banded" | "sol_banded"
           sid,    \* current scenario id
           sc,     \* current scenario
-          mD      \* Level-B result of the factorisation of the current scenario
-vars == <<l, pc, sid, sc, mD>>
+          mD,     \* Level-B result of the factorisation of the current scenario
+          mX      \* what the four lines of a scenario share: exact singularity, Cramer solutions, dyadic flags of the solves
+vars == <<l, pc, sid, sc, mD, mX>>
 
-NoSc == [kind |-> "none", n |-> 0, A |-> <<>>, AI |-> <<>>, bs |-> <<>>, rows |-> 0, cols |-> 0, irows |-> 0, icols |-> 0, iplen |-> 0]
-NoD == [cls |-> "none", a |-> <<>>, ip |-> <<>>, k |-> 0, dy |-> TRUE]
+NoSc == [fam |-> "none", kind |-> "none", n |-> 0, A |-> <<>>, AI |-> <<>>, bs |-> <<>>, rs |-> <<>>, cs |-> <<>>,
+         rows |-> 0, cols |-> 0, irows |-> 0, icols |-> 0, iplen |-> 0]
+NoD == [cls |-> "none", a |-> <<>>, ip |-> <<>>, k |-> 0, dy |-> TRUE, re |-> <<>>, lex |-> <<>>]
 
-Init == TLCSet(1, ndJsonDeserialize(IOEnv.TRACE)) /\ l = 1 /\ pc = "start" /\ sid = 0 /\ sc = NoSc /\ mD = NoD
+NoX == [sing |-> FALSE, want |-> <<>>, sdy |-> <<>>]
+
+Init == TLCSet(1, ndJsonDeserialize(IOEnv.TRACE)) /\ l = 1 /\ pc = "start" /\ sid = 0 /\ sc = NoSc /\ mD = NoD /\ mX = NoX
 
 Viol(clause, r, s, detail) == PrintT(<<"VIOL", "C16", clause, r.sid, [kind |-> s.kind, n |-> s.n, obs |-> detail]>>)
 Drift(r, detail) == PrintT(<<"DRIFT", "C16", r.act, r.sid, detail>>)
@@ -39,47 +46,68 @@ Drift(r, detail) == PrintT(<<"DRIFT", "C16", r.act, r.sid, detail>>)
 IsRealSc(s) == s.kind = "real"
 SingularSc(s) == IF IsRealSc(s) THEN RealSingular(s.A, s.n) ELSE ComplexSingular(s.A, s.AI, s.n)
 WantSc(s, k) == IF IsRealSc(s) THEN RealSolution(s.A, s.n, s.bs[k]) ELSE ComplexSolution(s.A, s.AI, s.n, s.bs[k])
-ModelDec(s) == IF IsRealSc(s) THEN Dec(s.A, s.n) ELSE CDec(s.A, s.AI, s.n)
+ModelDec(s) == IF IsRealSc(s) THEN Dec(s.A, s.n, s.rs) ELSE CDec(s.A, s.AI, s.n, s.rs)
+\* the model's factor and the exact solution in the form the harness logs floats in
+ModelLuME(s, m) == LET ex == FacExp(m, s.cs, s.n)
+                   IN [i \in 1..s.n |-> [j \in 1..s.n |-> IF IsRealSc(s) THEN ME(m.a[i][j], ex[i][j]) ELSE CME(m.a[i][j], ex[i][j])]]
+\* w: a Cramer solution of the unscaled system; the code solves the scaled one: component j carries 2^-cs[j]
+WantME(s, w) == [j \in 1..s.n |-> IF IsRealSc(s) THEN ME(w[j], -s.cs[j]) ELSE CME(w[j], -s.cs[j])]
+Want3(s, w) == [j \in 1..s.n |-> IF IsRealSc(s) THEN R3(w[j], -s.cs[j]) ELSE C3(w[j], -s.cs[j])]
+BadPivotStage(s, ipObs, obsCls) == IF IsRealSc(s) THEN RealBadPivotStage(s.A, s.n, s.rs, ipObs, obsCls)
+                                   ELSE ComplexBadPivotStage(s.A, s.AI, s.n, s.rs, ipObs, obsCls)
 ModelSol(s, m, k) == IF IsRealSc(s) THEN Sol(m.a, s.n, SubSeq(m.ip, 1, s.n - 1), s.bs[k])
                                     ELSE CSol(m.a, s.n, SubSeq(m.ip, 1, s.n - 1), s.bs[k])
+Shared(s, m) == LET sing == SingularSc(s)
+                IN [sing |-> sing,
+                    want |-> IF sing THEN <<>> ELSE [k \in 1..Len(s.bs) |-> WantSc(s, k)],
+                    sdy |-> [k \in 1..Len(s.bs) |-> m.cls = "ok" /\ m.dy /\ ModelSol(s, m, k).dy]]
 
 WellFormedSc(s) ==
   /\ s.kind \in {"real", "complex"}
-  /\ s.n \in 1..3 /\ Len(s.A) = s.n /\ (s.kind = "complex" => Len(s.AI) = s.n /\ s.n <= 2)
+  /\ s.n \in 1..4 /\ Len(s.A) = s.n /\ (s.kind = "complex" => Len(s.AI) = s.n /\ s.n <= 3)
+  /\ Len(s.rs) = s.n /\ Len(s.cs) = s.n
   /\ \A k \in 1..Len(s.bs) : Len(s.bs[k]) = s.n
 
 \* checks common to dec(full) and dec(banded): s = scenario, m = Level-B result
-DecChecks(r, s, m) ==
-  LET sing == SingularSc(s)
+DecChecks(r, s, m, x) ==
+  LET sing == x.sing
       okClass == C16_Class(sing, m.dy, r.cls)
       okMult == C16_Multipliers(r.cls, r.mult_ok)
+      bad == BadPivotStage(s, r.ip, r.cls)
+      okPiv == C16_PivotMax(bad)
       sameB == /\ r.cls = m.cls
                /\ r.ip = m.ip
-               /\ IF m.dy THEN r.lu = m.a ELSE r.lu_close
+               /\ IF m.dy THEN r.lu = ModelLuME(s, m) ELSE r.lu_close
   IN /\ (IF okClass THEN TRUE
-         ELSE Viol("class", r, s, [storage |-> r.storage, A |-> s.A, AI |-> s.AI, exactly_singular |-> sing,
+         ELSE Viol("class", r, s, [storage |-> r.storage, A |-> s.A, AI |-> s.AI, rs |-> s.rs, cs |-> s.cs, exactly_singular |-> sing,
                                    all_dyadic |-> m.dy, code_class |-> r.cls]))
      /\ (IF okMult THEN TRUE
-         ELSE Viol("multipliers", r, s, [storage |-> r.storage, A |-> s.A, AI |-> s.AI, code_class |-> r.cls, factor |-> r.lu]))
-     /\ (IF okClass /\ okMult /\ ~sameB
-         THEN Drift(r, [storage |-> r.storage, A |-> s.A, AI |-> s.AI, model_class |-> m.cls, code_class |-> r.cls,
+         ELSE Viol("multipliers", r, s, [storage |-> r.storage, A |-> s.A, AI |-> s.AI, rs |-> s.rs, cs |-> s.cs,
+                                         code_class |-> r.cls, factor |-> r.lu]))
+     /\ (IF okPiv THEN TRUE
+         ELSE Viol("pivot_max", r, s, [storage |-> r.storage, A |-> s.A, AI |-> s.AI, rs |-> s.rs, cs |-> s.cs,
+                                       code_class |-> r.cls, code_ip |-> r.ip, stage |-> bad, model_ip |-> m.ip]))
+     /\ (IF okClass /\ okMult /\ okPiv /\ ~sameB
+         THEN Drift(r, [storage |-> r.storage, A |-> s.A, AI |-> s.AI, rs |-> s.rs, cs |-> s.cs, model_class |-> m.cls, code_class |-> r.cls,
                         model_ip |-> m.ip, code_ip |-> r.ip, all_dyadic |-> m.dy, lu_close |-> r.lu_close])
          ELSE TRUE)
 
-SolChecks(r, s, m) ==
-  LET sing == SingularSc(s)
+SolChecks(r, s, m, x) ==
+  LET sing == x.sing
       okB == C16_OnlyB(r.a_same, r.ip_same)
-      OkSol(k) == LET allDy == m.cls = "ok" /\ m.dy /\ ModelSol(s, m, k).dy
-                  IN C16_Solution(sing, allDy, IF sing THEN <<>> ELSE WantSc(s, k), r.panic, r.xs[k], r.close[k], r.xe_used[k])
+      OkSol(k) == LET allDy == x.sdy[k]
+                  IN C16_Solution(sing, allDy, IF sing THEN <<>> ELSE IF allDy THEN WantME(s, x.want[k]) ELSE Want3(s, x.want[k]),
+                                  r.panic, r.xs[k], r.close[k], r.xe_used[k])
       bad == {k \in 1..Len(s.bs) : ~OkSol(k)}
   IN /\ Len(r.xs) = Len(s.bs)
      /\ (IF bad = {} THEN TRUE
-         ELSE LET k == CHOOSE x \in bad : \A y \in bad : x <= y
-              IN Viol("solution", r, s, [storage |-> r.storage, A |-> s.A, AI |-> s.AI, b |-> s.bs[k], panic |-> r.panic,
-                                         code_x |-> r.xs[k], close |-> r.close[k],
-                                         want |-> IF sing THEN <<>> ELSE WantSc(s, k), n_bad_rhs |-> Cardinality(bad)]))
+         ELSE LET k == CHOOSE kk \in bad : \A y \in bad : kk <= y
+              IN Viol("solution", r, s, [storage |-> r.storage, A |-> s.A, AI |-> s.AI, rs |-> s.rs, cs |-> s.cs, b |-> s.bs[k],
+                                         panic |-> r.panic, code_x_mant_exp |-> r.xs[k], close |-> r.close[k],
+                                         want_num_den_exp |-> IF sing THEN <<>> ELSE Want3(s, x.want[k]), n_bad_rhs |-> Cardinality(bad)]))
      /\ (IF okB THEN TRUE
-         ELSE Viol("only_b", r, s, [storage |-> r.storage, A |-> s.A, AI |-> s.AI, a_same |-> r.a_same, ip_same |-> r.ip_same]))
+         ELSE Viol("only_b", r, s, [storage |-> r.storage, A |-> s.A, AI |-> s.AI, rs |-> s.rs, cs |-> s.cs,
+                                    a_same |-> r.a_same, ip_same |-> r.ip_same]))
 
 Step ==
   /\ l <= NLines
@@ -94,23 +122,24 @@ Step ==
                                             iplen |-> s.iplen, want |-> want, code_class |-> r.cls]))
               \* well-shaped call on an identity matrix: Level B says ok
               /\ (IF want = "proceed" /\ r.cls # "ok" THEN Drift(r, [want |-> "ok", code_class |-> r.cls]) ELSE TRUE)
-        /\ pc' = "start" /\ sid' = r.sid /\ UNCHANGED <<sc, mD>>
+        /\ pc' = "start" /\ sid' = r.sid /\ UNCHANGED <<sc, mD, mX>>
      \/ /\ pc = "start" /\ r.act = "dec" /\ r.storage = "full"
         /\ WellFormedSc(r.sc)
-        /\ LET s == r.sc
-               m == ModelDec(s)
-           IN /\ DecChecks(r, s, m)
-              /\ sc' = s /\ mD' = m /\ sid' = r.sid
+        \* (primed variables, not LET: TLC evaluates a LET definition again at every use)
+        /\ sc' = r.sc /\ sid' = r.sid
+        /\ mD' = ModelDec(sc')
+        /\ mX' = Shared(sc', mD')
+        /\ DecChecks(r, sc', mD', mX') = TRUE   \* "= TRUE": evaluated as one expression, so that its LET definitions are evaluated once
         /\ pc' = IF r.cls = "ok" THEN "sol_full" ELSE "dec_banded"
      \/ /\ pc = "sol_full" /\ r.act = "sol" /\ r.storage = "full" /\ r.sid = sid
-        /\ SolChecks(r, sc, mD)
-        /\ pc' = "dec_banded" /\ UNCHANGED <<sid, sc, mD>>
+        /\ SolChecks(r, sc, mD, mX) = TRUE
+        /\ pc' = "dec_banded" /\ UNCHANGED <<sid, sc, mD, mX>>
      \/ /\ pc = "dec_banded" /\ r.act = "dec" /\ r.storage = "banded" /\ r.sid = sid
-        /\ DecChecks(r, sc, mD)
-        /\ pc' = (IF r.cls = "ok" THEN "sol_banded" ELSE "start") /\ UNCHANGED <<sid, sc, mD>>
+        /\ DecChecks(r, sc, mD, mX) = TRUE
+        /\ pc' = (IF r.cls = "ok" THEN "sol_banded" ELSE "start") /\ UNCHANGED <<sid, sc, mD, mX>>
      \/ /\ pc = "sol_banded" /\ r.act = "sol" /\ r.storage = "banded" /\ r.sid = sid
-        /\ SolChecks(r, sc, mD)
-        /\ pc' = "start" /\ UNCHANGED <<sid, sc, mD>>
+        /\ SolChecks(r, sc, mD, mX) = TRUE
+        /\ pc' = "start" /\ UNCHANGED <<sid, sc, mD, mX>>
   /\ l' = l + 1
 
 Next == Step
